@@ -130,7 +130,16 @@ impl H {
             p.alloc
         }
         match self {
-            H::CArc(c) => ("CArc", c.as_ref().map(|p| chk(p)).unwrap_or(0)),
+            H::CArc(c) => {
+                // the same target through AsRef and through the reference transpose From<&CArc> for Option<&CArcSome>
+                let a1 = c.as_ref().map(|p| chk(p)).unwrap_or(0);
+                let o: Option<&CArcSome<P>> = c.into();
+                let a2 = o.map(|s| chk(&**s)).unwrap_or(0);
+                if a1 != a2 {
+                    BAD.fetch_add(1, SeqCst);
+                }
+                ("CArc", a1)
+            }
             H::Some(c) => ("Some", chk(&**c)),
             H::OCArc(c) => ("OCArc", alloc_of(raw_instance(c))),
             H::OSome(c) => ("OSome", alloc_of(raw_instance(c))),
@@ -207,8 +216,18 @@ fn exec(sh: &Shared, e: &Value) -> Result<(), String> {
             let d = e["d"].as_u64().unwrap() as usize - 1;
             let h = take(s).ok_or("clone of free slot")?;
             let cm = C_MODE.load(SeqCst) != 0;
+            let mut h = h;
+            let via_mut = !cm && (s + d) % 2 == 1;
             let c = ledger::track(|| unsafe {
-                match &h {
+                match &mut h {
+                    // alternately through the mutable reference transpose From<&mut CArc> for Option<&mut CArcSome>
+                    H::CArc(x) if via_mut => {
+                        let o: Option<&mut CArcSome<P>> = x.into();
+                        match o {
+                            Some(some) => H::CArc(some.clone().transpose()),
+                            None => H::CArc(CArc::default()),
+                        }
+                    }
                     H::CArc(x) => H::CArc(if cm { c_clone_of(x) } else { x.clone() }),
                     H::Some(x) => H::Some(if cm { c_clone_of(x) } else { x.clone() }),
                     H::OCArc(x) => H::OCArc(if cm { c_clone_of(x) } else { x.clone() }),
